@@ -333,21 +333,21 @@ theorem replica_blockgrow_crash_atomic (C : Crypto) (hC : TreeStore.HashWF C) (h
   · exact Or.inl ⟨shows_of_rp C bs m c' _ held r4, r4⟩
   · exact Or.inr ⟨shows_of_rp C bs n c' _ _ r4, r4⟩
 
-/-- the same for **the next block and an upgrade in one proof** (block `m` on a replica of length `m`, upgrade `m → n` — the
-    live-download step): cut after any number of storage operations it leaves the replica of length `m` without the
-    block or the replica of length `n` with it -/
-theorem replica_nextblock_crash_atomic (C : Crypto) (hC : TreeStore.HashWF C) (hT : TreeStore.TreeWF C) (bs : Array Bytes) (m n : Nat) (c : Core) (d : Disk)
+/-- the same for **a block of the new part and an upgrade in one proof** (block `m ≤ i < n` on a replica of length `m`, upgrade
+    `m → n` — the download step): cut after any number of storage operations it leaves the replica of length `m` without
+    the block or the replica of length `n` with it -/
+theorem replica_newblock_crash_atomic (C : Crypto) (hC : TreeStore.HashWF C) (hT : TreeStore.TreeWF C) (bs : Array Bytes) (m n : Nat) (c : Core) (d : Disk)
     (held : Nat → Bool) (h : ReplicaReopen.RP C bs m c d held) (hm0 : 0 < m) (hmn : m < n) (hn : n ≤ bs.size) (us : List (Nat × Nat))
     (hup : Growth.Up m 0 (RefTree.rootsStack n).reverse us) (sig : Bytes) (hsl : sig.length = 64)
-    (hver : C.verify c.publicKey (Growth.signableAt C bs n c.tree.fork) sig = true)
-    (a b : List (Nat × Nat)) (k : Nat) (hsplit : us = a ++ (k, m / 2 ^ k) :: b) (kk : Nat) :
-    let st := c.verifyAndApply C d (BlockGrowGen.honestNextBlock C bs c.tree.fork m n a b k sig)
+    (hver : C.verify c.publicKey (Growth.signableAt C bs n c.tree.fork) sig = true) (i : Nat) (hmi : m ≤ i) (hi : i < n)
+    (a b : List (Nat × Nat)) (k : Nat) (hsplit : us = a ++ (k, i / 2 ^ k) :: b) (kk : Nat) :
+    let st := c.verifyAndApply C d (BlockGrowGen.honestNewBlock C bs c.tree.fork i m n a b k sig)
     let dk := d.applyAll (st.journal.take kk)
     ∃ c' j, Core.openCore C none dk = .ok (c', j) ∧ c'.publicKey = c.publicKey ∧ c'.tree.fork = c.tree.fork
       ∧ ((Shows bs m held c' (dk.applyAll j) ∧ ReplicaReopen.RP C bs m c' (dk.applyAll j) held)
-        ∨ (Shows bs n (fun j => held j || j == m) c' (dk.applyAll j) ∧ ReplicaReopen.RP C bs n c' (dk.applyAll j) (fun j => held j || j == m))) := by
+        ∨ (Shows bs n (fun j => held j || j == i) c' (dk.applyAll j) ∧ ReplicaReopen.RP C bs n c' (dk.applyAll j) (fun j => held j || j == i))) := by
   intro st dk
-  obtain ⟨c1, e, j0, hk⟩ := BlockGrowGen.nextblock_ok C hC hT bs m n c d held h hm0 hmn hn us hup sig hsl hver a b k hsplit
+  obtain ⟨c1, e, j0, hk⟩ := BlockGrowGen.newblock_ok C hC hT bs m n c d held h hm0 hmn hn us hup sig hsl hver i hmi hi a b k hsplit
   obtain ⟨c', j, r1, r2, r3, r4⟩ := ReplicaCrash.crash_recover C bs m n c c1 d held _ _ e j0 h hk kk
   refine ⟨c', j, r1, r2, r3, ?_⟩
   rcases r4 with r4 | r4
@@ -355,8 +355,8 @@ theorem replica_nextblock_crash_atomic (C : Crypto) (hC : TreeStore.HashWF C) (h
   · exact Or.inr ⟨shows_of_rp C bs n c' _ _ r4, r4⟩
 
 /-- **replicas survive any number of crashes.**  From a replica created with `Hypercore::new` over empty stores and
-    the writer's public key: every state reached by first contact, honest exchanges (upgrade, block, hash, block + upgrade in one proof — the block below the replica's length or the next
-    block it lacks; with
+    the writer's public key: every state reached by first contact, honest exchanges (upgrade, block, hash, block + upgrade in one proof — the block below the replica's length or in the new part;
+    with
     the request computed from the replica's current length), close/reopen steps and crashes at any storage operation of any of these applications
     followed by a reopen (`ReplicaCrash.Reach`) shows a prefix of the writer's log — its length and byte length,
     every held block byte-identical, `has` and the contiguous length exact — and satisfies the invariants, so
